@@ -26,8 +26,11 @@ def alg_cases(draw, tier, pairs=None, schemes=None, shapes=None, kinds=None, fla
     # one case in four hands the algorithm a Dataset OBJECT that reached these rankings through an in-place mutation,
     # after having been used (by the same algorithm instance among others): see vlib/mutate.py
     via = draw(mutate.via_strategy(ds["rankings"]))
+    # one case in three: the algorithm INSTANCE first serves a renamed copy of the same dataset (same shape, same cost
+    # matrix, other names) or an unrelated small dataset - whatever it remembers must not leak into the case's run
+    prelude = draw(st.sampled_from([None, None, None, None, "renamed", "renamed", "other", "reordered", "reordered"]))
     return {"config": name, "env": env, "scheme": scheme, "dataset": ds, "at_most_one": flag, "rng": rng,
-            "via_mutation": via}
+            "via_mutation": via, "prelude": prelude}
 
 
 def build_dataset(case, warm=None):
@@ -35,6 +38,32 @@ def build_dataset(case, warm=None):
     if isinstance(via, list):          # replay files recorded with the first version of this option
         via = {"kind": "element", "pos": via, "where": 0}
     return mutate.build(case["dataset"]["rankings"], via, warm)
+
+
+def renamed(rankings):
+    """same rankings under other names (ints shifted, strings suffixed), element order inside buckets reversed"""
+    def f(e):
+        return e + 1000 if isinstance(e, int) else e + "'"
+    return [[[f(e) for e in reversed(b)] for b in r] for r in rankings]
+
+
+def run_prelude(alg, case, s):
+    kind = case.get("prelude")
+    if not kind:
+        return
+    if kind == "renamed":
+        d0 = lib.mk_dataset(renamed(case["dataset"]["rankings"]))
+    elif kind == "reordered":
+        # the same rankings listed in the opposite order: an EQUAL dataset whose element ids differ
+        d0 = lib.mk_dataset(list(reversed(case["dataset"]["rankings"])))
+    else:
+        d0 = lib.mk_dataset([[[1], [2, 3]], [[3], [1], [2]], [[2], [3]]])
+    try:
+        with lib.quiet():
+            c0 = alg.compute_consensus_rankings(d0, s, case["at_most_one"])
+            _ = c0.kemeny_score
+    except Exception:  # noqa  (a refusal of the prelude is not the subject)
+        pass
 
 
 def run_case(case):
@@ -51,6 +80,7 @@ def run_case(case):
             def warm(d0):
                 # the SAME algorithm instance is used on the dataset before its mutation
                 alg.compute_consensus_rankings(d0, s, case["at_most_one"])
+            run_prelude(alg, case, s)
             d = build_dataset(case, warm)
             random.seed(case.get("rng", 0))
             try:
